@@ -4,7 +4,7 @@ Per design and transaction: run => ready and every method of the static call tre
 conditions and enable_call=0 included) and validate_arguments of every would-be-active call and every body
 it is ready-dependent on runs; Transaction.ready/runnable/run equal the body's signals."""
 
-from contracts import corelib
+from contracts import corelib, schedfn
 
 PROPERTY = "C03"
 LEVEL = "proof"
@@ -13,10 +13,12 @@ TECHNIQUE = "contracts on the elaborated netlist of generated designs (real mana
 
 
 def configs(tier):
-    return corelib.design_configs(tier, schedulers=("eager", "rr"))
+    return corelib.design_configs(tier, schedulers=("eager", "rr")) + schedfn.configs(tier)
 
 
 def run(cfg, ctx):
+    if cfg.get("kind") == "schedfn":
+        return schedfn.run(PROPERTY, cfg, ctx)
     corelib.run_core(PROPERTY, cfg, ctx)
 
 
